@@ -205,22 +205,26 @@ fn cmd_size(out_path: &str) {
             }
         }
     }
+    // compression is quadratic in the window: spread the jobs round-robin over a few threads
     let nthreads = 6usize;
-    let chunk = (jobs.len() + nthreads - 1) / nthreads;
     let mut results: Vec<Vec<Value>> = Vec::new();
     std::thread::scope(|sc| {
-        let mut hs = Vec::new();
-        for part in jobs.chunks(chunk.max(1)) {
-            hs.push(sc.spawn(move || {
-                part.iter()
-                    .map(|&(fmt, p, pk, n)| {
-                        let mut rng = Rng::new(seed ^ ((p as u64) << 20) ^ ((pk as u64) << 40) ^ n as u64);
-                        let pat = pattern(&mut rng, p, pk);
-                        size_event(fmt, &periodic(&pat, n), p, pk, false)
-                    })
-                    .collect::<Vec<Value>>()
-            }));
-        }
+        let jobs = &jobs;
+        let hs: Vec<_> = (0..nthreads)
+            .map(|t| {
+                sc.spawn(move || {
+                    jobs.iter()
+                        .skip(t)
+                        .step_by(nthreads)
+                        .map(|&(fmt, p, pk, n)| {
+                            let mut rng = Rng::new(seed ^ ((p as u64) << 20) ^ ((pk as u64) << 40) ^ n as u64);
+                            let pat = pattern(&mut rng, p, pk);
+                            size_event(fmt, &periodic(&pat, n), p, pk, false)
+                        })
+                        .collect::<Vec<Value>>()
+                })
+            })
+            .collect();
         for h in hs {
             results.push(h.join().expect("worker thread"));
         }
